@@ -1,15 +1,70 @@
 package main
 
-// canonical returns the seed-independent battery: one reproducer per known
-// finding plus a few anchor runs.
+import "fmt"
+
+// canonical returns the seed-independent battery: fixed representatives of
+// every quarantined region (= one reproducer per listed known finding) plus a
+// few anchor runs at the acceptance sizes.
 func canonical() []runCase {
 	var out []runCase
 	add := func(name string, p []int, c class) {
 		w := findWorkload(name)
-		cs := mkCase(w, p, c, "canon-"+name+"-"+c.Arch+"-"+c.mode()+"-"+c.gpuClass()+"-"+c.mem(), 1)
+		if c.Timing && c.GPUType == "" {
+			c.GPUType = map[string]string{"gcn3": "r9nano", "cdna3": "mi300a"}[c.Arch]
+		}
+		if !w.Adm(p, c) {
+			panic(fmt.Sprintf("canonical case %s %v inadmissible in %s", name, p, c))
+		}
+		cs := mkCase(w, p, c, "canon-"+name+"-"+w.paramString(p)+"-"+c.Arch+"-"+c.mode()+"-"+c.gpuClass()+"-"+c.mem(), 1)
 		cs.Canon = true
 		out = append(out, cs)
 	}
-	add("fir", []int{1024, 16}, class{Arch: "gcn3", NGPU: 1})
+	g := func(n int, ug, um bool) class { return class{Arch: "gcn3", NGPU: n, UnifiedGPU: ug, UnifiedMem: um} }
+	cd := func(n int, ug, um bool) class { return class{Arch: "cdna3", NGPU: n, UnifiedGPU: ug, UnifiedMem: um} }
+	tm := func(c class) class { c.Timing = true; return c }
+
+	// anchors (acceptance sizes, must hold)
+	add("fir", []int{8192, 16}, g(1, false, false))
+	add("fir", []int{8192, 16}, tm(g(2, false, false)))
+	add("aes", []int{16384}, tm(g(2, false, false))) // stalled before fix e18fcb94
+	add("vectoradd", []int{4096, 1}, tm(cd(2, true, false)))
+	add("kmeans", []int{1024, 32, 5, 5}, g(4, false, true))
+
+	// region: timing + plain multi-GPU + unified memory (CommandProcessor.Driver nil)
+	add("fir", []int{1024, 16}, tm(g(2, false, true)))
+	add("fir", []int{1024, 16}, tm(g(4, false, true)))
+	add("atax", []int{33, 33}, tm(g(2, false, true)))
+	add("matrixtranspose", []int{256}, tm(g(4, false, true)))
+
+	// region: cdna3, plain multi-GPU, grid split through HiddenGlobalOffsetX
+	for _, x := range []struct {
+		n string
+		p []int
+	}{{"vectoradd", []int{4096, 1}}, {"relu", []int{1028}}, {"fir", []int{1024, 16}}, {"aes", []int{1024}},
+		{"simpleconvolution", []int{30, 17, 3}}, {"kmeans", []int{256, 32, 5, 2}}, {"bitonicsort", []int{256}}} {
+		add(x.n, x.p, cd(2, false, false))
+		add(x.n, x.p, cd(4, false, true))
+	}
+
+	// region: bitonicsort, gcn3 timing, two or more work-groups
+	add("bitonicsort", []int{256}, tm(g(1, false, false)))
+	add("bitonicsort", []int{128}, tm(g(1, false, false))) // one work-group: holds
+
+	// region: nw with three or more 64-blocks (the package default length is 256)
+	add("nw", []int{192}, g(1, false, false))
+	add("nw", []int{256}, cd(1, false, false))
+	add("nw", []int{192}, tm(g(1, false, false)))
+
+	// region: spmv on cdna3 with more than one work-group
+	add("spmv", []int{130, 30}, cd(1, false, false))
+	add("spmv", []int{256, 10}, cd(1, false, false))
+
+	// region: im2col with a non-square input (host reference)
+	add("im2col", []int{1, 2, 9, 7, 3, 1, 2, 1}, g(1, false, false))
+	add("im2col", []int{1, 2, 9, 7, 3, 1, 2, 1}, cd(1, false, false))
+
+	// regions: conv2d on cdna3
+	add("conv2d", []int{1, 1, 8, 8, 2, 3, 1, 1, 1}, cd(1, false, false))
+	add("conv2d", []int{2, 2, 9, 7, 3, 3, 1, 2, 0}, cd(1, false, false))
 	return out
 }
